@@ -52,6 +52,26 @@ def run_writer(fil, case, d):
     raise ValueError(w)
 
 
+class Snap:
+    """what was on disk after one write call: length + digest (+ the bytes themselves when small)"""
+
+    def __init__(self, b: bytes):
+        import hashlib
+        self.n = len(b)
+        self.sha = hashlib.sha256(b).digest()
+        self.b = b if len(b) <= (1 << 16) else None
+
+    def __len__(self):
+        return self.n
+
+    def is_prefix_of(self, final: bytes) -> bool:
+        import hashlib
+        return self.n <= len(final) and hashlib.sha256(final[:self.n]).digest() == self.sha
+
+    def equals(self, other: bytes) -> bool:
+        return self.is_prefix_of(other) and len(other) == self.n
+
+
 def install_spy(log, kill_after=None):
     """wrap FileWriter.write/cwrite: after every call record (path, size, bytes on disk)"""
     from sigpyproc.io.fileio import FileWriter
@@ -62,7 +82,7 @@ def install_spy(log, kill_after=None):
     def snap(self):
         path = self.files[0]
         with open(path, "rb") as f:
-            log.append((path, f.read()))
+            log.append((path, Snap(f.read())))
         count[0] += 1
         if kill_after is not None and count[0] == kill_after:
             os.kill(os.getpid(), signal.SIGKILL)
@@ -92,7 +112,7 @@ class C20(Prop):
     assumptions = ["OS-level durability/atomicity of write(2) is outside the model (exercised by the SIGKILL runs only)",
                    "a truncated file is read with read_block (read_plan to the end of a stream with a partial trailing "
                    "sample raises ValueError by design)"]
-    regimes_expected = list(WRITERS) + ["sigkill"]
+    regimes_expected = list(WRITERS) + ["sigkill", "above-1MiB"]
     budget_s = (240, 1500)
 
     def _case(self, rng, writer=None):
@@ -104,6 +124,19 @@ class C20(Prop):
         N = rng.choice((12, 20, 31))
         return {"writer": writer, "nbits": nbits, "C": C, "N": N, "g": rng.choice((3, 5, 8, N + 1)), "dseed": rng.randrange(1 << 30)}
 
+    def _big(self, rng, writer=None):
+        """outputs above 1 MiB (size-dependent behaviour: preallocation, buffering thresholds)"""
+        writer = writer or rng.choice(WRITERS)
+        nbits = rng.choice((8, 32)) if writer in ("subband", "downsample", "tim", "block") else rng.choice((8, 8, 32, 4))
+        C = 64
+        N = {4: 80000, 8: 40000, 32: 10000}[nbits] + rng.randrange(0, 50)
+        if writer in ("chans", "tim"):
+            N *= 8                       # one float32 channel per output file
+        elif writer in ("downsample", "bands"):
+            N *= 2
+        return {"writer": writer, "nbits": nbits, "C": C, "N": N, "g": rng.choice((4096, 5000, 16384)),
+                "dseed": rng.randrange(1 << 30), "big": True}
+
     def gen(self, rng, tier):
         k = 1 if tier == "quick" else 4
         cases = []
@@ -113,12 +146,27 @@ class C20(Prop):
             c = self._case(rng, rng.choice(("invert", "downsample", "subband", "samps", "zerodm")))
             c["kill"] = rng.randint(1, 4)
             cases.append(c)
+        if tier == "quick":
+            cases += [self._big(rng, "samps"), self._big(rng)]
+        else:
+            cases += [self._big(rng, w) for w in WRITERS]
+        return cases
+
+    def search(self, rng, tier):
+        # after a broken obligation: every writer again, small and above 1 MiB
+        cases = [self._big(rng, w) for w in WRITERS]
+        for w in WRITERS:
+            cases += [self._case(rng, w) for _ in range(6)]
         return cases
 
     # ------------------------------------------------------------------
     def _mkinput(self, case, d):
         rng = random.Random(case["dseed"])
-        x = spfiles.rand_data(rng, case["N"], case["C"], case["nbits"])
+        if case.get("big"):
+            nb = case["nbits"]
+            x = np.random.default_rng(case["dseed"]).integers(1, (1 << nb) if nb < 32 else 200, size=(case["N"], case["C"]))
+        else:
+            x = spfiles.rand_data(rng, case["N"], case["C"], case["nbits"])
         return spfiles.write_fil(d / "in.fil", x, case["nbits"], fch1=FCH1, foff=FOFF, tsamp=TSAMP)
 
     def observe(self, case):
@@ -145,8 +193,9 @@ class C20(Prop):
         for o in outs:
             final = open(o, "rb").read()
             snaps = [b for (pp, b) in log if os.path.abspath(pp) == os.path.abspath(o)]
-            res["files"].append({"final": final.hex(), "snaps": [len(s) for s in snaps],
-                                 "prefix_ok": [final.startswith(s) for s in snaps],
+            res["files"].append({"final": final.hex() if len(final) <= 4096 else "", "final_len": len(final),
+                                 "snaps": [len(s) for s in snaps],
+                                 "prefix_ok": [s.is_prefix_of(final) for s in snaps],
                                  "first_is_header": None, "trunc": self._truncations(o, final)})
             kv = C05._parse(final)
             res["files"][-1]["hdrlen"] = kv[1] if kv else None
@@ -165,8 +214,11 @@ class C20(Prop):
         nbits, C = h["nbits"], h["nchans"]
         full = decode_data(final[hl:], nbits)
         stride_bits = nbits * C
-        lengths = range(hl, len(final) + 1) if len(final) <= 2048 else sorted(
-            set(random.Random(1).sample(range(hl, len(final) + 1), 400)) | {hl, len(final)})
+        if len(final) <= 2048:
+            lengths = range(hl, len(final) + 1)
+        else:
+            nsamp = 400 if len(final) <= (1 << 16) else 24
+            lengths = sorted(set(random.Random(1).sample(range(hl, len(final) + 1), nsamp)) | {hl, len(final)})
         probs = []
         tp = path + ".trunc"
         is_tim = path.endswith(".tim")
@@ -236,7 +288,7 @@ class C20(Prop):
         k = case["kill"]
         return {"killed": killed, "rc": r.returncode, "stderr": r.stderr[-200:],
                 "surv_len": None if surv is None else len(surv),
-                "matches_snapshot": surv is not None and k <= len(snaps) and surv == snaps[k - 1],
+                "matches_snapshot": surv is not None and k <= len(snaps) and snaps[k - 1].equals(surv),
                 "nsnaps": len(snaps), "trunc": [] if surv is None else self._truncations(str(surv_path), surv)}
 
     # ------------------------------------------------------------------
@@ -264,8 +316,8 @@ class C20(Prop):
                 return f"{w} file {i}: the bytes on disk after write #{j + 1} are not a prefix of the final file (rewritten or reordered)"
             if any(b < a for a, b in zip(f["snaps"], f["snaps"][1:])):
                 return f"{w} file {i}: the file shrank between writes"
-            if f["snaps"][-1] * 2 != len(f["final"]):
-                return f"{w} file {i}: after the call returned the file has {len(f['final']) // 2} bytes but the last write left {f['snaps'][-1]}"
+            if f["snaps"][-1] != f["final_len"]:
+                return f"{w} file {i}: after the call returned the file has {f['final_len']} bytes but the last write left {f['snaps'][-1]}"
             if f["trunc"]:
                 return f"{w} file {i}: truncation not readable as a prefix: {f['trunc'][0]}"
         return None
@@ -276,7 +328,7 @@ class C20(Prop):
             return []
         reqs = []
         for f in obs["files"]:
-            if len(f["final"]) <= 2400 and f["hdrlen"]:
+            if f["final"] and len(f["final"]) <= 2400 and f["hdrlen"]:
                 reqs.append(f"C20 prefixes {f['final']} {f['hdrlen']}")
         return reqs
 
@@ -287,6 +339,8 @@ class C20(Prop):
         return None
 
     def regime(self, case, obs):
+        if case.get("big"):
+            return "above-1MiB"
         return "sigkill" if "kill" in case else case["writer"]
 
     def nontrivial(self, case, obs):
